@@ -105,8 +105,8 @@ def case_arith(c):
         V('tbin', 'tbin=%r' % be.tbin)
     stem = os.path.join(engine.workdir(), 'c20a')
     outcomes = set()
-    # packet-counter cards the caller may supply: none, only a start, only a first index, both (different)
-    HDS = ({}, {'PKTSTART': 4096}, {'PKTIDX': 100}, {'PKTSTART': 4096, 'PKTIDX': 100})
+    # packet-counter cards the caller may supply: none, only a start, only a first index, both (different), a start of 0 with a later first index
+    HDS = ({}, {'PKTSTART': 4096}, {'PKTIDX': 100}, {'PKTSTART': 4096, 'PKTIDX': 100}, {'PKTSTART': 0, 'PKTIDX': 100})
     for n, hd in [(n_, h_) for n_ in c['num_blocks'] for h_ in HDS]:
         del cap[:]
         pkt0 = hd.get('PKTIDX', 0)
